@@ -281,4 +281,7 @@ def run(rep):
         ftexts.append((s, rng.choice(LANGS + ["en", "en"]), rng.choice(cs)))
     run_texts(rep, ftexts, "c01.fuzz")
     rep.extra["fuzz_texts"] = len(ftexts)
+    # the implementation-shaped layer: rule engine model check + hook-based conformance (non-gating, reported in the evidence)
+    from props import pipeline_part
+    pipeline_part.run(rep, quick)
     rep.extra["explanation"] = ("panic / termination freedom is bounded exploration driven by the alphabet the model enumerates; TLC validates the slot structure of every execution")
